@@ -488,7 +488,8 @@ Section WalletLock.
   Inductive wop :=
   | OLock (pw : string) (nonce : Z)
   | OUnlock (pw : string) (nonce : Z) (keep : bool)   (* keep = stay with the locked wallet *)
-  | OGen (c : nat) (es : list entry).
+  | OGen (c : nat) (es : list entry)
+  | OReload.                                          (* Serialize, then Load: the same wallet *)
 
   Definition wstep (w : wallet) (o : wop) : wallet * error :=
     match o with
@@ -499,6 +500,7 @@ Section WalletLock.
       | (w', UErr e) => (w', Some e)
       end
     | OGen c es => gen c es w
+    | OReload => (w, None)
     end.
 
   Fixpoint wrun (w : wallet) (ops : list wop) : list (wallet * error) :=
